@@ -178,6 +178,9 @@ pub trait DynSet: Sync {
     /// Err(text) = the case is not available in this build (e.g. OS RNG without default-rng)
     fn c16_case(&self, c: &C16Case) -> Result<Vec<DropObs>, String>;
     fn sizes(&self) -> (usize, usize);
+    /// sigDecode followed by sigEncode through the verif-hooks wrappers:
+    /// None = hooks not compiled in; Some(Err) = decoding rejected; Some(Ok(bytes)) = re-encoding
+    fn sig_recode(&self, sig: &[u8]) -> Option<Result<Vec<u8>, &'static str>>;
 }
 
 macro_rules! set_impl {
@@ -375,6 +378,23 @@ macro_rules! set_impl {
                 }
                 fn sizes(&self) -> (usize, usize) {
                     (core::mem::size_of::<PrivateKey>(), core::mem::size_of::<PublicKey>())
+                }
+
+                #[allow(unused_variables)]
+                fn sig_recode(&self, sig: &[u8]) -> Option<Result<Vec<u8>, &'static str>> {
+                    #[cfg(feature = "hooks")]
+                    {
+                        use fips204::verif_hooks as vh;
+                        let a: [u8; m::SIG_LEN] = sig.try_into().expect("harness: signature length");
+                        let gamma1: i32 = 1 << ($zb - 1);
+                        Some(vh::sig_decode::<$k, $l, $ct, { m::SIG_LEN }>(gamma1, $omega, &a).map(|(c, z, h)| {
+                            vh::sig_encode::<$k, $l, $ct, { m::SIG_LEN }>(gamma1, $omega, &c, &z, &h).to_vec()
+                        }))
+                    }
+                    #[cfg(not(feature = "hooks"))]
+                    {
+                        None
+                    }
                 }
 
                 fn c16_case(&self, c: &C16Case) -> Result<Vec<DropObs>, String> {
